@@ -92,49 +92,63 @@ func (e *Env) RSink() {
 		}
 		_, tn := schema.NamedTypeName(info.TypeOf(cc.List[0]))
 		nObj := info.Implicits[cc]
+		// a branch that delegates to a helper is analysed through the helper's body (one level)
+		caseBody, undo := c.ExpandCall(cc.Body)
 		var body []string
-		for _, s := range cc.Body {
+		for _, s := range caseBody {
 			body = append(body, stmtNorm(c, s))
 		}
 		adds[tn] = strings.Join(body, " ; ")
 		pos := e.Prog.Pos(cc.Pos())
 		// semantic content of the branch
 		nReg, nRegGuarded, nAlloc, nAppend, nAppendGuarded := 0, 0, 0, 0, 0
-		var walk func(list []ast.Stmt, guard string)
-		walk = func(list []ast.Stmt, guard string) {
+		isComment := func(x ast.Expr) bool { p, ok := c.Path(x, nObj); return ok && p == "Comment" }
+		isList := func(x ast.Expr) bool { p, ok := c.Path(x, nObj); return ok && p == "Comment.List" }
+		isAppendTo := func(x ast.Expr, base func(ast.Expr) bool) (ast.Expr, bool) {
+			call, ok := x.(*ast.CallExpr)
+			if !ok || len(call.Args) != 2 || c.ExprStr(call.Fun) != "append" || !base(call.Args[0]) {
+				return nil, false
+			}
+			return call.Args[1], true
+		}
+		var walk func(list []ast.Stmt, guard ast.Expr)
+		walk = func(list []ast.Stmt, guard ast.Expr) {
 			for _, s := range list {
 				switch x := s.(type) {
 				case *ast.IfStmt:
-					g := c.ExprStr(x.Cond)
-					walk(x.Body.List, strings.TrimPrefix(guard+" && "+g, " && "))
+					walk(x.Body.List, x.Cond)
 					if el, ok := x.Else.(*ast.BlockStmt); ok {
-						walk(el.List, strings.TrimPrefix(guard+" && !("+g+")", " && "))
+						walk(el.List, &ast.UnaryExpr{Op: token.NOT, X: x.Cond})
 					}
 				case *ast.AssignStmt:
 					if len(x.Lhs) != 1 || len(x.Rhs) != 1 {
 						continue
 					}
-					lp, lok := c.Path(x.Lhs[0], nObj)
-					rp, rok := c.Path(x.Lhs[0], recv)
-					rhs := c.ExprStr(x.Rhs[0])
 					switch {
-					case lok && lp == "Comment" && rhs == "&CommentGroup{}":
-						nAlloc++
-					case rok && rp == "comments" && rhs == "append(r.comments, n.Comment)":
-						nReg++
-						if guard == "n.Comment == nil" {
-							nRegGuarded++
+					case isComment(x.Lhs[0]):
+						if _, isAlloc := c.AllocOf(x.Rhs[0]); isAlloc {
+							nAlloc++
 						}
-					case lok && lp == "Comment.List" && rhs == "append(n.Comment.List, c)":
-						nAppend++
-						if guard != "" {
-							nAppendGuarded++
+					case func() bool { p, ok := c.Path(x.Lhs[0], recv); return ok && p == "comments" }():
+						if arg, ok := isAppendTo(x.Rhs[0], func(b ast.Expr) bool { p, ok := c.Path(b, recv); return ok && p == "comments" }); ok && isComment(arg) {
+							nReg++
+							if be, ok := guard.(*ast.BinaryExpr); ok && be.Op == token.EQL && isComment(be.X) && info.Types[be.Y].IsNil() {
+								nRegGuarded++
+							}
+						}
+					case isList(x.Lhs[0]):
+						if _, ok := isAppendTo(x.Rhs[0], isList); ok {
+							nAppend++
+							if guard != nil {
+								nAppendGuarded++
+							}
 						}
 					}
 				}
 			}
 		}
-		walk(cc.Body, "")
+		walk(caseBody, nil)
+		undo()
 		e.Run.Check("R-SINK", fmt.Sprintf("addCommentField %s: group registered in the file's comment list exactly once, when created", tn), pos,
 			nAlloc == 1 && nReg == 1 && nRegGuarded == 1,
 			fmt.Sprintf("the node's Comment group must be appended to r.comments once, inside `if n.Comment == nil` next to its allocation (allocations %d, registrations %d, of which under the nil test %d): registered never ⇒ go/printer drops the comment, registered per comment ⇒ printed repeatedly", nAlloc, nReg, nRegGuarded))
@@ -169,7 +183,7 @@ func (e *Env) RSink() {
 			fmt.Sprintf("sibling branches must agree: %s: «%s»  vs  %s: «%s»", tn, adds[tn], refT, ref))
 	}
 	e.Run.Analysed("comment sink branches", len(as))
-	e.Run.Floor("R-SINK", "sink branches", len(as), 4)
+	e.Run.Floor("R-SINK", "sink branches", len(as), 3)
 	e.applyDecorationsSinks()
 }
 
